@@ -428,8 +428,8 @@ func (s *ImmuServer) ChangePermission(ctx context.Context, r *schema.ChangePermi
 		targetUser.GrantPermission(r.Database, r.Permission)
 	}
 
-	targetUser.CreatedBy = user.Username
-	targetUser.CreatedAt = time.Now()
+	// the target user is not handed over to whoever changes its permissions on one database:
+	// its creator (or the system admin) stays the only one entitled to change its password or status
 	targetUser.SQLPrivileges = defaultSQLPrivilegesForPermission(r.Database, r.Permission)
 	targetUser.HasPrivileges = true
 
@@ -732,8 +732,6 @@ func (s *ImmuServer) ChangeSQLPrivileges(ctx context.Context, r *schema.ChangeSQ
 		targetUser.GrantSQLPrivileges(r.Database, privileges)
 	}
 
-	targetUser.CreatedBy = user.Username
-	targetUser.CreatedAt = time.Now()
 	targetUser.HasPrivileges = true
 
 	if err := s.saveUser(ctx, targetUser); err != nil {
